@@ -45,7 +45,7 @@ def check(run):
         ks = [1, 2, 3]
         allops = [call(op, k) for op in ("Add", "Remove", "Has") for k in ks] + [call("Len"), call("AddSet", s=[1, 2]), call("RemoveSet", s=[2, 3]),
                                                                                      call("AddSet", s=[3]), call("RemoveSet", s=[1])]
-        p = [[run.rng.choice(allops) for _ in range(run.rng.randint(1, 2))] for _ in range(nt)]
+        p = [[run.rng.choice(allops) for _ in range(run.rng.randint(1, 2) if nt < 8 else 1)] for _ in range(nt)]
         rnd.append(program([run.rng.choice(allops) for _ in range(run.rng.randint(0, 3))], p, "random", n=25 if q else 60,
                            seed=run.seed * 1000 + i, keys=ks))
     h1, _ = run_programs(run, "syncset", conc)
